@@ -197,6 +197,13 @@ func (e *Exec) evalExternal(call *ast.CallExpr, st *State, ctx *Ctx) []string {
 		e.evalArgs(call, st, ctx)
 		return nil
 	}
+	// function literals handed to external code (regexp.ReplaceAllStringFunc): the body is executed once from an
+	// arbitrary state so that its obligations are generated; the variables it assigns are forgotten afterwards
+	for _, a := range call.Args {
+		if lit, ok := a.(*ast.FuncLit); ok {
+			e.sweepLiteral(lit, st, ctx)
+		}
+	}
 	// default: evaluate arguments for their side obligations, forget addressed locals, unconstrained results
 	if sel, ok := call.Fun.(*ast.SelectorExpr); ok {
 		if s, ok := info.Selections[sel]; ok && s.Kind() == types.MethodVal {
@@ -306,4 +313,35 @@ func (e *Exec) sprintfTerm(call *ast.CallExpr, st *State, ctx *Ctx) string {
 		return parts[0]
 	}
 	return "(str.++ " + strings.Join(parts, " ") + ")"
+}
+
+// sweepLiteral runs a function literal that is passed to external code: from a state in which everything the literal
+// assigns is unknown, with unknown arguments; afterwards the caller's view of those variables is forgotten too.
+func (e *Exec) sweepLiteral(lit *ast.FuncLit, st *State, ctx *Ctx) {
+	info := e.info(ctx)
+	e.closureInfo[lit] = info
+	vars, fields := e.assignedVars(st, info, lit.Body)
+	e.note("function literal passed to external code is executed from an arbitrary state (any number of calls, unknown arguments)")
+	run := st.clone()
+	e.havoc(run, vars, fields)
+	for _, f := range lit.Type.Params.List {
+		for _, name := range f.Names {
+			if pv, ok := info.Defs[name].(*types.Var); ok {
+				t := e.fresh(run, pv.Name(), sortOf(pv.Type()))
+				run.env[pv] = t
+				if inv := typeInv(t, pv.Type()); inv != "" {
+					run.pc = append(run.pc, inv)
+				}
+			}
+		}
+	}
+	sig := info.TypeOf(lit).(*types.Signature)
+	fr := &frame{fi: nil, loopKey: "", contract: e.fi.Contract, info: info, loopOrd: e.loopOrd}
+	for i := 0; i < sig.Results().Len(); i++ {
+		fr.resTypes = append(fr.resTypes, sig.Results().At(i).Type())
+	}
+	fr.ret = func(*State, []string) {}
+	run.path = append(run.path, "lit")
+	e.execBlock(lit.Body.List, run, &Ctx{frame: fr}, func(*State) {})
+	e.havoc(st, vars, fields)
 }
